@@ -112,7 +112,7 @@ func prescreen(g *spec.Grammar, r *rand.Rand) [][]int {
 	var b *yx.Built
 	select {
 	case b = <-done:
-	case <-time.After(20 * time.Second):
+	case <-time.After(3 * time.Minute):
 		return nil
 	}
 	if !b.OK() {
